@@ -132,8 +132,8 @@ def c20(ctx, spec):
 def c13(ctx, spec):
     import subprocess
     types = (0, 1) if ctx.tier == 'quick' else (0, 1, 2, 3)
-    builds = [dict(name='c13_g%d_t%d' % (g, t), src='harness/c13_blas.cpp', cfg='asan_noleak', defs=['C13_G=%d' % g, 'C13_T=%d' % t], libs=['-lopenblas'], env={'OPENBLAS_NUM_THREADS': '1'}, may_fail=(g == 2 and t == 3)) for g in (1, 2, 3) for t in types]
-    if ctx.tier == 'thorough': builds += [dict(name='c13vg_g%d_t%d' % (g, t), src='harness/c13_blas.cpp', cfg='vg', defs=['C13_G=%d' % g, 'C13_T=%d' % t], libs=['-lopenblas']) for g in (1, 3) for t in (0, 1)]
+    builds = [dict(name='c13_g%d_t%d' % (g, t), src='harness/c13_blas.cpp', cfg='asan_noleak', defs=['C13_G=%d' % g, 'C13_T=%d' % t], libs=['-lopenblas'], env={'OPENBLAS_NUM_THREADS': '1'}, may_fail=(g == 2 and t == 3)) for g in (1, 2, 3, 4) for t in types]
+    if ctx.tier == 'thorough': builds += [dict(name='c13vg_g%d_t%d' % (g, t), src='harness/c13_blas.cpp', cfg='vg', defs=['C13_G=%d' % g, 'C13_T=%d' % t], libs=['-lopenblas']) for g in (1, 3, 4) for t in (0, 1)]
     ctx.build(builds)
     for b in builds:
         bb = ctx.built[b['name']]
@@ -147,7 +147,7 @@ def c13(ctx, spec):
     for v in ctx.violations:
         if re.search(r':(abort|segv|asan:[\w\-]+|exit\(\w+\)|memcheck:[\w\-]+)$', v['key']): v['key'] = re.sub(r':(abort|segv|asan:[\w\-]+|exit\(\w+\)|memcheck:[\w\-]+)$', ':oob-write', v['key'])
     ctx.extra['outcomes'] = {k: v for k, v in ctx.counters.items() if k in ('computed-ok', 'rejected', 'rejected:assertion', 'rejected:exception')}
-    ctx.extra['not_compilable_on_pinned_tree'] = ['blas::asum (result type deduced as int / no matching core::asum)', 'blas::iamax in assertion-enabled builds (assert(!offset(x)) names an inaccessible base)', 'complex<float> gemm (beta comparison in core.hpp) if the TU fails to build']
+    ctx.extra['not_compilable_on_pinned_tree'] = ['blas::asum (result type deduced as int / no matching core::asum)', 'blas::iamax in assertion-enabled builds (assert(!offset(x)) names an inaccessible base)', 'blas::operators::operator^ (swap of two vectors)', 'y += a*x / y -= a*x with a view on the left (the operator returns the view by value)', '(a*A) % x while operators::operator% is visible', 'complex<float> gemm (beta comparison in core.hpp) if the TU fails to build']
 
 # ---------------------------------------------------------------------------------------------- C15
 def c15(ctx, spec):
